@@ -215,6 +215,18 @@ def run_case(case, ctx):
             for e, g, ex in zip(elements, got, exps):
                 if len(ex) == 1 and g != e:
                     ctx.fail("element %s did not survive a write/read cycle (came back %s)" % (e, g), witness={"element": e, "got": g, "tol": tol})
+    # history: the loaded structure's labels are edited where they are (force-field types assigned); the elements inferred from
+    # the masses are another table and must stay what they were
+    before = [str(x) for x in b.atom_type_elements]
+    try:
+        for i in range(len(b.atom_type_labels)):
+            b.atom_type_labels[i] = "X%d" % i
+        st.count("file.labels_edited_in_place")
+        if [str(x) for x in b.atom_type_elements] != before:
+            ctx.fail("editing atom_type_labels of the loaded structure in place changed its atom_type_elements to %s (inferred from the masses: %s)" %
+                     ([str(x) for x in b.atom_type_elements][:6], before[:6]), witness={"masses": printed, "tol": tol, "comments": comments})
+    except (TypeError, ValueError):
+        st.count("file.labels_not_editable_in_place")
     ctx.nontrivial(["file", case.get("mode"), tol, printed])
     ctx.sample({"kind": case["kind"], "mode": mode, "tol": tol, "masses": printed[:6], "read_back": got[:6]})
 
